@@ -4,7 +4,7 @@
 //     G <ops>        group script, one character per call:
 //                    c<d> set_context(id d, 1..9)  C set_context(NULL)  f set_finalizer  F set_finalizer(NULL)
 //                    t target queue #5  T target queue #6  e enter  l leave  n notify_f (on the notification queue)
-//                    r dispatch_retain  R dispatch_release  i/j _dispatch_retain x1/x2  I/J _dispatch_release x1/x2
+//                    W _os_object_retain_weak  r dispatch_retain  R dispatch_release  i/j _dispatch_retain x1/x2  I/J _dispatch_release x1/x2
 //                    a dispatch_group_async_f (enter here, leave on a worker)   w dispatch_group_wait(NOW)
 //       output: "G" then per call " xref ref nqref delivered" (-77 -77 when the object's memory was released), then
 //               " | fin_runs fin_ctx_id fin_queue_id notif_delivered crashes"
@@ -29,7 +29,7 @@
 #include "dv_record.h"
 
 enum { OP_RETAIN = 1, OP_RELEASE = 2, OP_ENTER = 3, OP_LEAVE = 4, OP_NOTIFY = 5, OP_SETCTX = 6, OP_SETFIN = 7, OP_SETTQ = 8,
-	OP_IRETAIN = 9, OP_IRELEASE = 10 };
+	OP_IRETAIN = 9, OP_IRELEASE = 10, OP_WEAK = 11 };
 
 static _Atomic int fin_runs, fin_ctx_id, fin_queue_id, delivered, items_run, specific_dtor_runs;
 static char ctxbuf[16]; static char qkey;
@@ -89,6 +89,7 @@ static void run_group_script(const char *ops) {
 		case 'n': dispatch_group_notify_f(g, nq, NULL, notif_fn); if (enters + asyncs > 0) pend++; break;
 		case 'a': dispatch_group_async_f(g, tq6, NULL, work_fn); asyncs++; break;
 		case 'w': (void)dispatch_group_wait(g, DISPATCH_TIME_NOW); break;
+		case 'W': if (_os_object_retain_weak(g->_as_os_obj)) x++; break;   // succeeds iff external references still exist
 		case 'r': dispatch_retain(g); x++; break;
 		case 'R': dispatch_release(g); x--; break;
 		case 'i': _dispatch_retain(g); in++; break;
@@ -167,8 +168,23 @@ static void run_lane_script(const char *ops) {
 // ------------------------------------------------------------------------------------------------ stress
 #define MAXT 6
 typedef struct { int idx, nops, round; uint64_t rng; } targ_t;
-static dispatch_group_t sg; static _Atomic long t_x, t_i, t_e; static _Atomic int registered; static pthread_barrier_t bar;
+static dispatch_group_t sg; static _Atomic long t_e; static _Atomic int registered; static pthread_barrier_t bar;
 static inline uint64_t rnd(uint64_t *s) { uint64_t x = *s; x ^= x << 13; x ^= x >> 7; x ^= x << 17; return *s = x; }
+// The harness-side book of references of one level: low 32 bits = references owned (by "the application": nobody in
+// particular), high 32 bits = calls in progress that USE the object through one of them.  Any number of threads may be
+// inside calls through the same reference; a release takes one reference out, and while calls are in progress it never
+// takes the last one (the client contract of Model/Refcnt.v: call_guard).
+typedef _Atomic uint64_t book_t;
+static book_t bx, bi;
+static int borrow(book_t *b) { uint64_t v = atomic_load(b);
+	while ((uint32_t)v >= 1) if (atomic_compare_exchange_weak(b, &v, v + (1ull << 32))) return 1;
+	return 0; }
+static void unborrow(book_t *b) { atomic_fetch_sub(b, 1ull << 32); }
+static void own(book_t *b, int n) { atomic_fetch_add(b, (uint64_t)n); }
+static int take_out(book_t *b, unsigned n) { uint64_t v = atomic_load(b);    // n references to be released by the caller
+	for (;;) { uint32_t pool = (uint32_t)v, bor = (uint32_t)(v >> 32);
+		if (pool < n || (bor != 0 && pool - n < 1)) return 0;
+		if (atomic_compare_exchange_weak(b, &v, v - n)) return 1; } }
 static int take(_Atomic long *pool, long n, long keep) {   // take n tokens, leaving at least `keep`
 	long t = atomic_load(pool);
 	while (t - n >= keep) if (atomic_compare_exchange_weak(pool, &t, t - n)) return 1;
@@ -182,33 +198,43 @@ static void *stress_thr(void *a) {
 	pthread_barrier_wait(&bar);
 	for (int k = 0; k < t->nops; k++) {
 		unsigned c = (unsigned)(rnd(&r) % 100);
-		// every call below is made through an external reference the thread borrows from the pool for its duration
-		if (!take(&t_x, 1, 0)) break;            // no external reference left: this thread stops using the object
-		if (c < 22) { CALL(OP_ENTER, 0); dispatch_group_enter(sg); RET(); atomic_fetch_add(&t_e, 1); atomic_fetch_add(&t_x, 1); }
-		else if (c < 44) { atomic_fetch_add(&t_x, 1);
-			if (take(&t_e, 1, 0)) { CALL(OP_LEAVE, 0); dispatch_group_leave(sg); RET(); } }
-		else if (c < 62) { CALL(OP_NOTIFY, 0); atomic_fetch_add(&registered, 1); dispatch_group_notify_f(sg, nq, NULL, notif_fn); RET(); atomic_fetch_add(&t_x, 1); }
-		else if (c < 72) { CALL(OP_RETAIN, 0); dispatch_retain(sg); RET(); atomic_fetch_add(&t_x, 2); }
-		else if (c < 82) { // release one of several external references (never the last one while others are working)
-			atomic_fetch_add(&t_x, 1);
-			if (take(&t_x, 1, 1)) { CALL(OP_RELEASE, 0); dispatch_release(sg); RET(); } }
-		else if (c < 91) { int n = 1 + (int)(rnd(&r) & 1); CALL(OP_IRETAIN, n); if (n == 1) _dispatch_retain(sg); else _dispatch_retain_2(sg); RET();
-			atomic_fetch_add(&t_i, n); atomic_fetch_add(&t_x, 1); }
-		else { atomic_fetch_add(&t_x, 1); int n = 1 + (int)(rnd(&r) & 1);
-			if (take(&t_i, n, 0)) { CALL(OP_IRELEASE, n); if (n == 1) _dispatch_release(sg); else _dispatch_release_2(sg); RET(); } }
+		if (c >= 44 && c < 54) { if (take(&t_e, 1, 0)) { CALL(OP_LEAVE, 0); dispatch_group_leave(sg); RET(); } continue; }   // needs only its enter
+		if (c >= 54 && c < 62) { if (take_out(&bx, 1)) { CALL(OP_RELEASE, 0); dispatch_release(sg); RET(); } continue; }
+		if (c >= 62 && c < 68) { unsigned n = 1 + (unsigned)(rnd(&r) & 1);
+			if (take_out(&bi, n)) { CALL(OP_IRELEASE, n); if (n == 1) _dispatch_release(sg); else _dispatch_release_2(sg); RET(); } continue; }
+		// every other call USES the object through a reference somebody owns: an external one, else an internal one; several
+		// threads are routinely inside such calls through the same reference
+		int viaint = 0;
+		if (((r >> 17) & 3) == 0 && borrow(&bi)) viaint = 1; else if (borrow(&bx)) viaint = 0; else if (borrow(&bi)) viaint = 1; else break;
+		book_t *bk = viaint ? &bi : &bx; int fl = viaint ? 100 : 0;
+		if (c < 24) { CALL(OP_ENTER + fl, 0); dispatch_group_enter(sg); RET(); atomic_fetch_add(&t_e, 1); }
+		else if (c < 44) { CALL(OP_NOTIFY + fl, 0); atomic_fetch_add(&registered, 1); dispatch_group_notify_f(sg, nq, NULL, notif_fn); RET(); }
+		else if (c < 78) { if (!viaint) { CALL(OP_RETAIN, 0); dispatch_retain(sg); RET(); own(&bx, 1); } }
+		else if (c < 90) { int n = 1 + (int)(rnd(&r) & 1); CALL(OP_IRETAIN + fl, n); if (n == 1) _dispatch_retain(sg); else _dispatch_retain_2(sg); RET(); own(&bi, n); }
+		else { CALL(OP_WEAK + fl, 0); bool ok = _os_object_retain_weak(sg->_as_os_obj); RET(); if (ok) own(&bx, 1); }
+		unborrow(bk);
 		if ((r >> 40) % 5 == 0) usleep((useconds_t)((r >> 20) % 120));
 	}
 	return NULL;
 }
-// the threads that drop everything that is left, racing each other: external references, internal ones, leaves
-typedef struct { int kind, round; } dropper_t;
+// the threads that drop everything that is left, racing each other and (in every other round) the workers still inside
+// calls: external references, internal ones, leaves.  A dropper waits while the contract forbids the release (calls in
+// progress through the last reference of its level).
+typedef struct { int kind, round; volatile int *stop; } dropper_t;
 static void *dropper(void *a) {
 	dropper_t *d = (dropper_t *)a;
 	dv_user(DVU_MARK, 1, (unsigned long long)d->round, 0);
 	pthread_barrier_wait(&bar);
-	if (d->kind == 0) while (take(&t_x, 1, 0)) { CALL(OP_RELEASE, 0); dispatch_release(sg); RET(); }
-	else if (d->kind == 1) while (take(&t_e, 1, 0)) { CALL(OP_LEAVE, 0); dispatch_group_leave(sg); RET(); }
-	else while (take(&t_i, 1, 0)) { CALL(OP_IRELEASE, 1); _dispatch_release(sg); RET(); }
+	for (;;) {
+		int did = 0;
+		if (d->kind == 0) { if (take_out(&bx, 1)) { CALL(OP_RELEASE, 0); dispatch_release(sg); RET(); did = 1; } }
+		else if (d->kind == 1) { if (take(&t_e, 1, 0)) { CALL(OP_LEAVE, 0); dispatch_group_leave(sg); RET(); did = 1; } }
+		else { if (take_out(&bi, 1)) { CALL(OP_IRELEASE, 1); _dispatch_release(sg); RET(); did = 1; } }
+		if (!did) { if (*d->stop) { // workers are done: nothing is borrowed any more; finish what is left
+				uint64_t v = d->kind == 0 ? atomic_load(&bx) : d->kind == 2 ? atomic_load(&bi) : (uint64_t)atomic_load(&t_e);
+				if ((uint32_t)v == 0) break; }
+			sched_yield(); }
+	}
 	return NULL;
 }
 static void on_sig(int s) { (void)s; }
@@ -224,23 +250,25 @@ static int stress(uint64_t seed, int rounds, int permille) {
 		sg = dispatch_group_create(); quarantined = sg; atomic_store(&freed_flag, 0);
 		atomic_store(&fin_runs, 0); atomic_store(&fin_ctx_id, 0); atomic_store(&delivered, 0); atomic_store(&registered, 0);
 		dispatch_set_context(sg, ctxbuf + 4); dispatch_set_finalizer_f(sg, finalizer);
-		atomic_store(&t_x, 1); atomic_store(&t_i, 0); atomic_store(&t_e, 0);
+		atomic_store(&bx, 1); atomic_store(&bi, 0); atomic_store(&t_e, 0);
 		// untrack the previous group, keep the queue words
 		dv_untrack_all(); dv_track(nq, 16, 2);
 		dv_track(sg, sizeof(struct dispatch_group_s), 1);
 		dv_user(DVU_MARK, 1, (unsigned long long)i, 0);
-		// give the workers a few external references to work with
-		int extra = 1 + (int)((r >> 12) % 3);
-		for (int k = 0; k < extra; k++) { CALL(OP_RETAIN, 0); dispatch_retain(sg); RET(); atomic_fetch_add(&t_x, 1); }
-		pthread_t th[MAXT]; targ_t ta[MAXT];
-		pthread_barrier_init(&bar, NULL, (unsigned)n);
+		// sometimes a few more external references; often the workers all share the single one
+		int extra = (int)((r >> 12) % 3);
+		for (int k = 0; k < extra; k++) { CALL(OP_RETAIN, 0); dispatch_retain(sg); RET(); own(&bx, 1); }
+		pthread_t th[MAXT], dt[3]; targ_t ta[MAXT]; dropper_t da[3]; volatile int stop = 0;
+		int early = (i & 1);           // droppers racing the workers, or only each other
+		pthread_barrier_init(&bar, NULL, (unsigned)n + (early ? 3u : 0u));
 		for (int k = 0; k < n; k++) { ta[k].idx = k; ta[k].round = i; ta[k].nops = 6 + (int)((r >> (k * 3)) % 14); ta[k].rng = r ^ ((uint64_t)(k + 1) * 0x9E3779B97F4A7C15ull);
 			pthread_create(&th[k], NULL, stress_thr, &ta[k]); }
+		for (int k = 0; k < 3; k++) { da[k].kind = k; da[k].round = i; da[k].stop = &stop; }
+		if (early) for (int k = 0; k < 3; k++) pthread_create(&dt[k], NULL, dropper, &da[k]);
 		for (int k = 0; k < n; k++) pthread_join(th[k], NULL);
-		pthread_barrier_destroy(&bar);
-		// final race: everything that is left is dropped by three threads at once
-		pthread_t dt[3]; dropper_t da[3]; pthread_barrier_init(&bar, NULL, 3);
-		for (int k = 0; k < 3; k++) { da[k].kind = k; da[k].round = i; pthread_create(&dt[k], NULL, dropper, &da[k]); }
+		if (!early) { pthread_barrier_destroy(&bar); pthread_barrier_init(&bar, NULL, 3);
+			for (int k = 0; k < 3; k++) pthread_create(&dt[k], NULL, dropper, &da[k]); }
+		stop = 1;
 		for (int k = 0; k < 3; k++) pthread_join(dt[k], NULL);
 		pthread_barrier_destroy(&bar);
 		wait_for(&fin_runs, 1);
